@@ -53,11 +53,24 @@
 (* exchanges get an execution link (quantified in Aligned), and which      *)
 (* request / event the manager of which exchange is handed.                *)
 (*                                                                         *)
-(* Environment assumptions (ASSUME EnvOK, documented in barter): the       *)
-(* internal name of an instrument is unique across exchanges; an asset     *)
-(* has one exchange name per exchange and two assets of one exchange do    *)
-(* not share an exchange name; two instruments of one exchange do not      *)
-(* share an exchange name.  Exchange names MAY be shared across exchanges. *)
+(* Environment assumptions (ASSUME EnvOK): an asset has one exchange name   *)
+(* per exchange and two assets of one exchange do not share an exchange    *)
+(* name.  Instrument names are NOT assumed unique: two distinct            *)
+(* definitions of one exchange may share their internal name (spot and     *)
+(* perpetual of one underlying) or their exchange name.  The documented    *)
+(* uniqueness only restricts WHAT IS JUDGED - these are the open points,   *)
+(* written as explicit sets:                                               *)
+(*  - a look-up by a name that several instruments of the exchange share   *)
+(*    may return any of them (FindInstrumentSet, NameToIndexSet);          *)
+(*  - the index -> exchange-name translation of an instrument whose        *)
+(*    exchange name is shared within its exchange yields that name or is   *)
+(*    refused (IndexToNameSet) - never another name; every index whose     *)
+(*    name is unique within its exchange translates exactly;               *)
+(*  - InstrumentStates is keyed by the internal name alone, so its         *)
+(*    alignment is claimed only for collections whose internal names are   *)
+(*    distinct (Aligned).                                                  *)
+(* Position = index, index -> entity, Dense, Unique, Resolve, OrderFree    *)
+(* and Sorted are stated for every collection.                             *)
 (***************************************************************************)
 EXTENDS Naturals, Sequences, FiniteSets, TLC
 
@@ -124,6 +137,8 @@ AssetsOfDef(d) == <<EA(d.ex, d.base), EA(d.ex, d.quote)>>
 FindExchange(X, e)      == First(LAMBDA p : X[p] = e, Len(X))
 FindAsset(A, e, a)      == First(LAMBDA p : A[p].ex = e /\ A[p].a = a, Len(A))    \* by internal name
 FindInstrument(I, e, n) == First(LAMBDA p : I[p].ex = e /\ I[p].ni = n, Len(I))   \* by internal name
+\* what a look-up by internal name may return when several instruments of e bear the name
+FindInstrumentSet(I, e, n) == LET S == {p \in DOMAIN I : I[p].ex = e /\ I[p].ni = n} IN IF S = {} THEN {None} ELSE S
 
 (***************************************************************************)
 (* build(): sort, dedup, enumerate, re-map the instruments' keys            *)
@@ -187,7 +202,15 @@ MapFor(t, e) ==
      as  |-> Filter(Len(t.as),  LAMBDA p : t.as[p].ex = e,  LAMBDA p : <<p, t.as[p].nx>>),
      ins |-> Filter(Len(t.ins), LAMBDA p : t.ins[p].ex = e, LAMBDA p : <<p, t.ins[p].nx>>)]
 
-\* index -> name and name -> index over such a list of pairs
+\* index -> name and name -> index over such a list of pairs (the indices are distinct; a name
+\* may occur more than once)
+SharedIn(m, n) == Cardinality({k \in DOMAIN m : m[k][2] = n}) > 1
+NameToIndexSet(m, n) == LET S == {m[k][1] : k \in {j \in DOMAIN m : m[j][2] = n}} IN IF S = {} THEN {None} ELSE S
+IndexToNameSet(m, i) == IF \E k \in DOMAIN m : m[k][1] = i
+                        THEN LET n == m[CHOOSE k \in DOMAIN m : m[k][1] = i][2]
+                             IN  IF SharedIn(m, n) THEN {n, None} ELSE {n}
+                        ELSE {None}
+\* the deterministic readings (used where the name is unique)
 IndexToName(m, i) == IF \E k \in DOMAIN m : m[k][1] = i
                      THEN m[CHOOSE k \in DOMAIN m : m[k][1] = i][2] ELSE None
 NameToIndex(m, n) == IF \E k \in DOMAIN m : m[k][2] = n
@@ -212,20 +235,21 @@ NoCall == Call("none", 0, 0, 0, FALSE, 0, 0, <<>>, <<>>)
 
 \* AccountEventIndexer::order_request: key (exchange index x, instrument index i) ->
 \* (ExchangeId, &InstrumentNameExchange) or KeyError (the manager then panics by design)
-OrderRequestResult(t, e, x, i) ==
-    LET m == MapFor(t, e)
-        n == IndexToName(m.ins, i)
-    IN  IF x = m.xk /\ n # None THEN [ok |-> TRUE, e |-> e, n |-> n] ELSE [ok |-> FALSE, e |-> 0, n |-> 0]
+OrderRequestResults(t, e, x, i) ==
+    LET m == MapFor(t, e) IN
+    {IF x = m.xk /\ n # None THEN [ok |-> TRUE, e |-> e, n |-> n] ELSE [ok |-> FALSE, e |-> 0, n |-> 0]
+       : n \in IndexToNameSet(m.ins, i)}
 
 \* asset_balance / order_key / trade / order_response_cancel, reached through account_event:
 \* an event of exchange `from` naming n (an asset name for "balance", else an instrument name)
 EventKinds == {"balance", "order", "trade", "cancel"}
-IndexEventResult(t, e, k, from, n) ==
-    LET m   == MapFor(t, e)
-        idx == IF k = "balance" THEN NameToIndex(m.as, n) ELSE NameToIndex(m.ins, n)
-    IN  IF from = e /\ idx # None THEN [ok |-> TRUE, x |-> m.xk, i |-> idx] ELSE [ok |-> FALSE, x |-> 0, i |-> 0]
+IndexEventResults(t, e, k, from, n) ==
+    LET m == MapFor(t, e) IN
+    {IF from = e /\ idx # None THEN [ok |-> TRUE, x |-> m.xk, i |-> idx] ELSE [ok |-> FALSE, x |-> 0, i |-> 0]
+       : idx \in IF k = "balance" THEN NameToIndexSet(m.as, n) ELSE NameToIndexSet(m.ins, n)}
 
 \* snapshot: every own asset and instrument of e, plus optionally one further asset / instrument name
+\* (a shared name is resolved to one representative here; Inbound only asks for membership)
 IndexSnapshotResult(t, e, from, xa, xi) ==
     LET m  == MapFor(t, e)
         an == [k \in 1..Len(m.as) |-> m.as[k][2]] \o (IF xa = None THEN <<>> ELSE <<xa>>)
@@ -258,14 +282,14 @@ Build ==
 
 OrderRequest(e, x, i) ==
     /\ built /\ last = NoCall
-    /\ LET r == OrderRequestResult(tables, e, x, i)
-       IN  last' = Call("request", e, x, i, r.ok, r.e, r.n, <<>>, <<>>)
+    /\ \E r \in OrderRequestResults(tables, e, x, i) :
+           last' = Call("request", e, x, i, r.ok, r.e, r.n, <<>>, <<>>)
     /\ UNCHANGED <<defs, bx, ba, built, tables>>
 
 IndexEvent(e, k, from, n) ==
     /\ built /\ last = NoCall
-    /\ LET r == IndexEventResult(tables, e, k, from, n)
-       IN  last' = Call(k, e, from, n, r.ok, r.x, r.i, <<>>, <<>>)
+    /\ \E r \in IndexEventResults(tables, e, k, from, n) :
+           last' = Call(k, e, from, n, r.ok, r.x, r.i, <<>>, <<>>)
     /\ UNCHANGED <<defs, bx, ba, built, tables>>
 
 IndexSnapshot(e, from, xa, xi) ==
@@ -329,7 +353,6 @@ Unique == AtBuild =>
     /\ \A p, q \in DOMAIN tables.ex  : p # q => tables.ex[p] # tables.ex[q]
     /\ \A p, q \in DOMAIN tables.as  : p # q => EAEntity(tables.as[p]) # EAEntity(tables.as[q])
     /\ \A p, q \in DOMAIN tables.ins : p # q => tables.ins[p].id # tables.ins[q].id
-                                             /\ <<tables.ins[p].ex, tables.ins[p].ni>> # <<tables.ins[q].ex, tables.ins[q].ni>>
 
 \* find by name o find by index = id, both ways (and names that were never inserted are not found)
 Inverse == AtBuild =>
@@ -341,7 +364,11 @@ Inverse == AtBuild =>
            LET p == FindAsset(tables.as, e, a) IN
            IF <<e, a>> \in {EAEntity(x) : x \in EASet}
            THEN p # None /\ EAEntity(tables.as[p]) = <<e, a>> ELSE p = None
-    /\ \A p \in DOMAIN tables.ins : FindInstrument(tables.ins, tables.ins[p].ex, tables.ins[p].ni) = p
+    \* by internal name: exact where the name is unique within its exchange, else one of the bearers
+    /\ \A p \in DOMAIN tables.ins : FindInstrument(tables.ins, tables.ins[p].ex, tables.ins[p].ni)
+                                         \in FindInstrumentSet(tables.ins, tables.ins[p].ex, tables.ins[p].ni)
+    /\ \A p \in DOMAIN tables.ins : FindInstrumentSet(tables.ins, tables.ins[p].ex, tables.ins[p].ni) = {p}
+                                    \/ Cardinality({d \in DefSet : d.ex = tables.ins[p].ex /\ d.ni = tables.ins[p].ni}) > 1
     /\ \A e \in AllExchanges, n \in {d.ni : d \in Universe} :
            LET p == FindInstrument(tables.ins, e, n) IN
            IF \E d \in DefSet : d.ex = e /\ d.ni = n
@@ -367,12 +394,14 @@ Sorted == AtBuild =>
     /\ \A p, q \in DOMAIN tables.ex  : p < q => tables.ex[p] < tables.ex[q]
     /\ \A p, q \in DOMAIN tables.as  : p < q => LexLess(EAKey(tables.as[p]), EAKey(tables.as[q]))
     /\ \A p, q \in DOMAIN tables.ins : p < q =>
-          LexLess(<<tables.ins[p].ex, tables.ins[p].ni>>, <<tables.ins[q].ex, tables.ins[q].ni>>)
+          LexLess(<<tables.ins[p].ex, tables.ins[p].ni, tables.ins[p].nx, KindRank(tables.ins[p].kind)>>,
+                  <<tables.ins[q].ex, tables.ins[q].ni, tables.ins[q].nx, KindRank(tables.ins[q].kind)>>)
 
 \* engine instrument states, asset states, connectivity table and execution-link table hold at
 \* position i the entity with index i (for every choice L of linked exchanges)
+InternalNamesDistinct(S) == \A d1, d2 \in S : d1 # d2 => d1.ni # d2.ni
 Aligned == AtBuild =>
-    /\ LET s == InstrumentStates(tables) IN
+    /\ InternalNamesDistinct(DefSet) => LET s == InstrumentStates(tables) IN
           /\ Len(s) = Len(tables.ins)
           /\ \A p \in DOMAIN s : s[p][1] = tables.ins[p].ni /\ s[p][2].key = p /\ s[p][2].id = tables.ins[p].id
     /\ LET s == AssetStates(tables) IN
@@ -395,12 +424,13 @@ C11 == Dense /\ Unique /\ Inverse /\ Resolve /\ OrderFree /\ Sorted /\ Aligned
 RoundTrip == AtBuild => \A e \in ExchangesOf(tables) :
     /\ \A i \in DOMAIN tables.as : tables.as[i].ex = e =>
           AssetNameToIndex(tables, e, AssetIndexToName(tables, e, i)) = i
-    /\ \A i \in DOMAIN tables.ins : tables.ins[i].ex = e =>
-          InsNameToIndex(tables, e, InsIndexToName(tables, e, i)) = i
+    /\ \A i \in DOMAIN tables.ins : (tables.ins[i].ex = e /\ ~SharedIn(MapFor(tables, e).ins, tables.ins[i].nx)) =>
+          /\ IndexToNameSet(MapFor(tables, e).ins, i) = {InsIndexToName(tables, e, i)}
+          /\ InsNameToIndex(tables, e, InsIndexToName(tables, e, i)) = i
     /\ \A n \in AssetNames : AssetNameToIndex(tables, e, n) # None =>
           AssetIndexToName(tables, e, AssetNameToIndex(tables, e, n)) = n
-    /\ \A n \in InsNames : InsNameToIndex(tables, e, n) # None =>
-          InsIndexToName(tables, e, InsNameToIndex(tables, e, n)) = n
+    /\ \A n \in InsNames : \A i \in NameToIndexSet(MapFor(tables, e).ins, n) : i # None =>
+          InsIndexToName(tables, e, i) = n
 
 \* only the indices / names of e translate at all, and they translate to the entity itself
 OnlyOwn == AtBuild => \A e \in ExchangesOf(tables) :
@@ -415,7 +445,7 @@ OnlyOwn == AtBuild => \A e \in ExchangesOf(tables) :
     /\ \A n \in AssetNames : LET i == AssetNameToIndex(tables, e, n) IN
           IF \E p \in DOMAIN tables.as : tables.as[p].ex = e /\ tables.as[p].nx = n
           THEN i # None /\ tables.as[i].ex = e /\ tables.as[i].nx = n ELSE i = None
-    /\ \A n \in InsNames : LET i == InsNameToIndex(tables, e, n) IN
+    /\ \A n \in InsNames : \A i \in NameToIndexSet(MapFor(tables, e).ins, n) :
           IF \E p \in DOMAIN tables.ins : tables.ins[p].ex = e /\ tables.ins[p].nx = n
           THEN i # None /\ tables.ins[i].ex = e /\ tables.ins[i].nx = n ELSE i = None
 
@@ -424,7 +454,10 @@ OnlyOwn == AtBuild => \A e \in ExchangesOf(tables) :
 Outbound == (built /\ last.op = "request") =>
     LET own == /\ last.n \in DOMAIN tables.ins /\ tables.ins[last.n].ex = last.e
                /\ last.x \in DOMAIN tables.ex /\ tables.ex[last.x] = last.e
-    IN  /\ last.ok <=> own
+        \* an instrument whose exchange name is shared within its exchange may be refused (open point)
+        exact == own /\ ~SharedIn(MapFor(tables, last.e).ins, tables.ins[last.n].nx)
+    IN  /\ last.ok => own
+        /\ exact => last.ok
         /\ last.ok => last.re = tables.ins[last.n].ex /\ last.rn = tables.ins[last.n].nx
 
 \* balance / order / trade / cancel events of exchange e naming n are indexed to the entity
@@ -441,7 +474,8 @@ Inbound ==
           /\ \A k \in DOMAIN last.ra : tables.as[last.ra[k]].ex = last.e
           /\ \A k \in DOMAIN last.ri : tables.ins[last.ri[k]].ex = last.e
           /\ {p \in DOMAIN tables.as : tables.as[p].ex = last.e} \subseteq Range(last.ra)
-          /\ {p \in DOMAIN tables.ins : tables.ins[p].ex = last.e} \subseteq Range(last.ri)
+          /\ {p \in DOMAIN tables.ins : tables.ins[p].ex = last.e /\ ~SharedIn(MapFor(tables, last.e).ins, tables.ins[p].nx)}
+                \subseteq Range(last.ri)
     /\ (built /\ last.op = "snapshot" /\ ~last.ok) =>
           \/ last.x # last.e
           \/ last.n[1] # None /\ ~\E p \in DOMAIN tables.as : tables.as[p].ex = last.e /\ tables.as[p].nx = last.n[1]
@@ -454,8 +488,9 @@ C04 == RoundTrip /\ OnlyOwn /\ Outbound /\ Inbound
 (***************************************************************************)
 EnvOKFor(U) ==
     LET eas == UNION {Range(AssetsOfDef(d)) : d \in U} IN
-    /\ \A d1, d2 \in U : d1 # d2 => d1.id # d2.id /\ d1.ni # d2.ni               \* internal names unique
-    /\ \A d1, d2 \in U : (d1 # d2 /\ d1.ex = d2.ex) => d1.nx # d2.nx              \* per exchange
+    /\ \A d1, d2 \in U : d1 # d2 => d1.id # d2.id /\ DefKey(d1) # DefKey(d2)      \* distinct definitions
+    \* (the harness identifies a table entry by exchange, both names and kind)
+    /\ \A d1, d2 \in U : d1 # d2 => <<d1.ex, d1.ni, d1.nx, d1.kind>> # <<d2.ex, d2.ni, d2.nx, d2.kind>>
     /\ \A x, y \in eas : (x.ex = y.ex /\ x.a = y.a) => x.nx = y.nx               \* one name per (e, asset)
     /\ \A x, y \in eas : (x.ex = y.ex /\ x.nx = y.nx) => x.a = y.a               \* injective per exchange
     /\ \A d \in U : d.kind \in {"spot", "perp", "future", "option"} /\ (HasSettlement(d) <=> d.settle # NoAsset)
@@ -467,7 +502,9 @@ ASSUME EnvOK == EnvOKFor(Universe)
 (* order of ExchangeId); assets 1..5 = btc eth sol usdc usdt with exchange   *)
 (* names 1..5 = BTC ETH SOL USDC USDT, 6 = XBT (Kraken's name for btc, so    *)
 (* that exchange-name order differs from internal-name order); instrument   *)
-(* internal names ins01.., exchange names SYM01.. (shared across exchanges). *)
+(* internal names ins01.., exchange names SYM01.. (shared across exchanges;   *)
+(* on Kraken one internal name and one exchange name are borne by two        *)
+(* distinct definitions each).                                              *)
 (***************************************************************************)
 A(e, a) == Asset(a, IF e = 3 /\ a = 1 THEN 6 ELSE a)
 Def(id, e, ni, nx, b, q, kind, s, u) ==
@@ -477,8 +514,10 @@ Def(id, e, ni, nx, b, q, kind, s, u) ==
 U7 == { Def(1, 2, 5, 1, 1, 5, "spot", 0, 0),     \* BinanceSpot ins05 SYM01 btc/usdt
         Def(2, 2, 2, 2, 2, 5, "future", 4, 0),   \* BinanceSpot ins02 SYM02 eth/usdt future settled in usdc
         Def(3, 3, 4, 3, 1, 5, "spot", 0, 0),     \* Kraken      ins04 SYM03 btc(XBT)/usdt
-        Def(4, 3, 1, 1, 2, 1, "spot", 0, 0),     \* Kraken      ins01 SYM01 eth/btc(XBT)
-        Def(5, 3, 6, 4, 1, 5, "perp", 4, 0),     \* Kraken      ins06 SYM04 btc/usdt perpetual settled in usdc
+        Def(4, 3, 1, 4, 2, 1, "spot", 0, 0),     \* Kraken      ins01 SYM04 eth/btc(XBT)  - exchange name shared with def 5
+        Def(5, 3, 4, 4, 1, 5, "perp", 4, 0),     \* Kraken      ins04 SYM04 btc/usdt perpetual settled in usdc - internal
+                                                 \*   name shared with def 3; index order on Kraken: 4, 3, 5 (the bearers
+                                                 \*   of SYM04 enclose an instrument with a name of its own)
         Def(6, 1, 3, 2, 3, 4, "spot", 0, 3),     \* Mock        ins03 SYM02 sol/usdc, quantity in sol
         Def(7, 1, 7, 5, 2, 5, "option", 4, 1) }  \* Mock        ins07 SYM05 eth/usdt option settled in usdc, quantity in btc
 
